@@ -406,7 +406,7 @@ def plan(tier):
 
 def work(shard, seed, tier):
     acc = Acc()
-    n = 400 if tier == "quick" else 4000
+    n = 350 if tier == "quick" else 3000
     steps = 40 if tier == "quick" else 60
 
     def execute(case):
